@@ -39,10 +39,12 @@ TRUSTED = [
     "functional extensionality (states are functions) - the only axiom",
 ]
 ASSUMES = [
-    "the model and the theorems describe the tree WITH fixes/C13-decompose-multi-qubit-gates applied (Gen/Devices.v records the order of "
-    "the passes; on the unchanged tree `passes_fixed` does not compile and transpile_coupled_refuted_unfixed applies)",
+    "the model and the theorems describe the tree WITH fixes/C13-decompose-multi-qubit-gates, C13-circuit-width and C13-rzx-neighbours "
+    "applied (Gen/Devices.v records the order of the passes and the per-device rules; on a tree without them `passes_fixed` / `tables_ok` "
+    "do not compile and the `_refuted_unfixed` theorems apply)",
     "source gates are well-formed instances of the 20 resolvable kinds on pairwise different qubits inside the circuit",
-    "coupling theorem: the circuit is as wide as the processor (known finding circuit-width-differs otherwise)",
+    "RZX (native gate of SCQubits without decomposition rule) is outside the 20 kinds of the theorems; its handling (kept on "
+    "neighbours, refused elsewhere) is covered by the correspondence, the oracle and transpile_refuses_unrouted",
     "parameters range over all reals through the phase-ring quantification (z_j = e^{i theta_j/4} arbitrary units)",
 ]
 
@@ -157,8 +159,16 @@ def oracle(inp, impl):
     cannot = [g[0] for g in inp["gates"] if not resolvable_on(proc, g[0], native)]
     if inp.get("measure"):
         cannot.append("measurement")
+    # a native gate that has no decomposition (RZX of SCQubits) can only stay where it is: on an uncoupled pair it cannot be
+    # brought into the required form
+    for g in inp["gates"]:
+        qs = list(g[2]) + list(g[1])
+        if g[0] in native and g[0] not in KINDS and len(qs) >= 2 and not (len(qs) == 2 and hw_coupled(proc, N, qs[0], qs[1])):
+            cannot.append(g[0] + " on uncoupled qubits")
+    if M > N:
+        cannot.append("circuit wider than the processor")
     if impl[0] == "rejected":
-        if not cannot and M <= N:
+        if not cannot:
             fails.append(("a circuit of resolvable gates is refused by transpile", impl[1], "transpiled circuit"))
         return fails
     out = impl[1]
@@ -213,8 +223,8 @@ def oracle_load(inp, impl, load):
 # Coq side
 # ------------------------------------------------------------------------------------------------
 HEADER = C3.HEADER.replace("Model.Resolve.", "Model.Resolve Model.TranspileTypes Gen.Devices Model.Transpile.") + r"""
-Definition run13 (p : string) (N : nat) (ops : list op) :=
-  match device_of p with Some d => dump (transpile_ops d N ops) | None => None end.
+Definition run13 (p : string) (Ndev M : nat) (ops : list op) :=
+  match device_of p with Some d => dump (transpile_ops d Ndev M ops) | None => None end.
 """
 
 
@@ -232,7 +242,7 @@ def run_model(inputs):
             ops = [C3._cgate(i, g) for i, g in enumerate(inp["gates"])]
             if inp.get("measure"):
                 ops.append("OpMeasure")
-            body.append(f'Eval vm_compute in run13 "{inp["processor"]}" {_width(inp)}%nat [{"; ".join(ops)}].')
+            body.append(f'Eval vm_compute in run13 "{inp["processor"]}" {int(inp["N"])}%nat {_width(inp)}%nat [{"; ".join(ops)}].')
         files.append((f"c13_cases_{k // 300}", "\n".join(body) + "\n"))
     outs = coq_eval_many(files, timeout=900)
     vals = []
@@ -306,15 +316,45 @@ def gen_inputs(ctx):
             out.append(("refuse", dict(processor=proc, N=N, gates=pre + [g])))
         out.append(("refuse", dict(processor=proc, N=2, gates=[["X", [0], [], None]], measure=True)))
         out.append(("refuse", dict(processor=proc, N=3, gates=[["CNOT", [0], [2], None]], measure=True)))
-    # 4. circuit narrower / wider than the processor
+    # 4. circuit narrower / wider than the processor: the end pair (0, M-1) of the circuit (its own wrap-around pair), every
+    #    other ordered pair (thorough) or a sample, three-qubit gates, short sequences
     for proc in PROCESSORS:
-        for N, M in ((5, 3), (4, 2), (3, 5), (2, 4), (5, 4)):
-            if M < 2:
+        for N, M in ((5, 3), (5, 4), (4, 2), (4, 3), (3, 2), (5, 2), (2, 1), (3, 5), (2, 4), (3, 4), (1, 2), (4, 5)):
+            if N not in sizes[proc]:
                 continue
-            for name in ("CNOT", "ISWAP"):
-                p = (0, M - 1) if rng.random() < 0.6 else tuple(rng.sample(range(M), 2))
-                t, c = _place(name, M, p)
-                out.append(("width", dict(processor=proc, N=N, M=M, gates=[C3.mk_gate(name, t, c, rng)])))
+            for name in ("CNOT", "CSIGN", "ISWAP", "SWAP", "SQRTISWAP"):
+                if M < 2:
+                    continue
+                pairs = list(itertools.permutations(range(M), 2))
+                chosen = [(0, M - 1), (M - 1, 0)] + (pairs if ctx.thorough else rng.sample(pairs, min(2, len(pairs))))
+                for p in chosen:
+                    t, c = _place(name, M, p)
+                    out.append(("width", dict(processor=proc, N=N, M=M, gates=[C3.mk_gate(name, t, c, rng)])))
+            if M >= 3:
+                for name in THREE:
+                    p = rng.sample(range(M), 3)
+                    t, c = _place(name, M, p)
+                    out.append(("width", dict(processor=proc, N=N, M=M, gates=[C3.mk_gate(name, t, c, rng)])))
+            gs = []
+            for _ in range(3):
+                name = rng.choice(ONE + TWO)
+                k = KINDS[name]
+                if k[0] + k[1] > M or name == "SQRTSWAP" or (name == "SQRTISWAP" and proc == "SCQubits"):
+                    continue
+                t, c = _place(name, M, rng.sample(range(M), k[0] + k[1]))
+                gs.append(C3.mk_gate(name, t, c, rng))
+            if gs:
+                out.append(("width", dict(processor=proc, N=N, M=M, gates=gs)))
+    # 4b. RZX: native gate of SCQubits without decomposition rule - kept on neighbours, refused elsewhere; not native elsewhere
+    for proc in PROCESSORS:
+        for N in (2, 3, 4, 5):
+            pairs = list(itertools.permutations(range(N), 2))
+            for p in (pairs if (proc == "SCQubits" or ctx.thorough) else rng.sample(pairs, 2)):
+                pre = [C3.mk_gate("RY", [rng.randrange(N)], [], rng)] if rng.random() < 0.4 else []
+                post = [C3.mk_gate("CNOT", [p[0]], [p[1]], rng)] if rng.random() < 0.3 else []
+                out.append(("rzx", dict(processor=proc, N=N, gates=pre + [["RZX", list(p), [], rng.choice(C3.ANGLES)]] + post)))
+        out.append(("rzx", dict(processor=proc, N=5, M=3, gates=[["RZX", [0, 2], [], 0.5]])))
+        out.append(("rzx", dict(processor=proc, N=5, M=3, gates=[["RZX", [2, 1], [], 0.5]])))
     # 5. malformed gates (Ok/Rejected and output equality only)
     mal = [
         [["TOFFOLI", [2], [0], None]], [["TOFFOLI", [2], [], None]], [["FREDKIN", [1], [0], None]], [["SWAP", [1], [], None]],
@@ -389,7 +429,7 @@ def correspond(ctx):
         for what, obs, exp in fails:
             corr.oracle_fail(inp, obs, exp, what)
         # second observation point on a sample (fresh processor each time)
-        if kind in ("triple", "refuse", "width", "sequence", "corpus") and n_load < ctx.n(60, 400) and ctx.rng.random() < 0.5:
+        if kind in ("triple", "refuse", "width", "rzx", "sequence", "corpus") and n_load < ctx.n(60, 400) and ctx.rng.random() < 0.5:
             n_load += 1
             corr.tally("load_circuit")
             for what, obs, exp in oracle_load(inp, impl, run_load(inp)):
